@@ -34,7 +34,7 @@ w("merge_q", Doc="= {1, 2}", Delegates="<- Dlg3b", Threshold="<- Thr3b", Commit=
 w("issue_t", MaxE="= 2", LabelSets="<- LS3", **full)
 w("meta_t", Kinds="<- MetaKinds", FanKinds="<- MetaKinds", MaxR="= 2", MaxE="= 2", LabelSets="<- LS3", **full)
 w("disc_t", Kinds="<- DiscKinds", FanKinds="<- DiscKinds", MaxR="= 2", MaxRC="= 2", **full)
-w("review_t", Kinds="<- ReviewKinds", FanKinds="<- ReviewKinds", MaxR="= 2", MaxV="= 1", MaxVC="= 1", MaxE="= 2", Creators="= {2}",
+w("review_t", Kinds="<- ReviewKinds", FanKinds="<- ReviewKinds", MaxR="= 2", MaxV="= 1", MaxVC="= 1", MaxE="= 1", Creators="= {2, 4}",
   Titles="= {0, 1, 9}", Bodies="= {0}", VerdictVals="= {0, 1, 2}", SummaryVals="= {0, 1}")
 w("merge_t", Doc="= {1, 2, 3}", Delegates="<- Dlg3", Threshold="<- Thr3", Commit="<- C2", Anc="<- Anc2", Kinds="<- MergeKinds",
   FanKinds="<- MergeFan", MaxR="= 2", HeadInits="<- HMerge", Pushers="= {3}", Creators="= {4}", **full)
